@@ -6,7 +6,8 @@ from vlib import *
 import closestack, cosem
 
 FIELDS = {"k": "", "d": 0, "st": "", "hc": 0, "hm": 0, "sc": 0, "sm": 0, "uc": 0, "um": 0, "a": 0, "dhc": 0, "dhm": 0,
-          "dsc": 0, "dsm": 0, "dfl": [], "fl": [], "puc": 0, "pum": 0, "L": 0, "u": 0, "used": 0, "prefix": 0, "same": 0, "mono": 0}
+          "dsc": 0, "dsm": 0, "dfl": [], "fl": [], "puc": 0, "pum": 0, "L": 0, "u": 0, "used": 0, "prefix": 0, "same": 0, "mono": 0,
+          "acc": 0, "heap": 0}
 BIG = 1000000000
 CLAMP = 1000000000
 
@@ -100,6 +101,43 @@ PUMPS = [
     ("pack-unpack", 'local P = string.rep("p", 100000)', 'string.unpack("s4", string.pack("s4", P))'),
     ("tostring-number", '', 'for j = 1, 500 do local a = tostring(j) end'),
 ]
+
+
+# ---- holders (C06): programs that keep a lot of memory alive through one kind of value / one route, and report the memory
+# accounted to their context at the peak (PEAK()).  The driver samples the live Go heap meanwhile; the relation between the
+# two is decided by QuotaTrace.tla (THeapVerdict).  250 values per list: table.unpack refuses more than 255.
+HOLDERS = [
+    ("vararg-nested", "local T = {} for i = 1, 250 do T[i] = i end\nlocal function f(n, ...) if n == 0 then PEAK() return select('#', ...) end return 1 + f(n - 1, ...) end\nf(12000, table.unpack(T, 1, 250))"),
+    ("vararg-forward", "local T = {} for i = 1, 250 do T[i] = i end\nlocal function g(n, ...) if n == 0 then PEAK() return 0 end return 1 + g(n - 1, ...) end\nlocal function f(...) return g(12000, ...) end\nf(table.unpack(T, 1, 250))"),
+    ("vararg-pcall-nested", "local T = {} for i = 1, 250 do T[i] = i end\nlocal function f(n, ...) if n == 0 then PEAK() return 0 end local ok, v = pcall(f, n - 1, ...) return 1 + (tonumber(v) or 0) end\nf(600, table.unpack(T, 1, 250))"),
+    ("vararg-coroutine", "local T = {} for i = 1, 250 do T[i] = i end\nlocal function f(n, ...) if n == 0 then PEAK() return 0 end return 1 + coroutine.wrap(f)(n - 1, ...) end\nf(2000, table.unpack(T, 1, 250))"),
+    ("vararg-built", "local function build(n, ...) if n == 0 then return ... end return build(n - 1, n, ...) end\nlocal function f(n, ...) if n == 0 then PEAK() return 0 end return 1 + f(n - 1, ...) end\nf(300, build(8000))"),
+    ("table-pack", "local T = {} for i = 1, 250 do T[i] = i end\nlocal K = {} for i = 1, 12000 do K[i] = table.pack(table.unpack(T, 1, 250)) end PEAK()"),
+    ("constructor-vararg", "local T = {} for i = 1, 250 do T[i] = i end\nlocal function g(...) return {...} end\nlocal K = {} for i = 1, 12000 do K[i] = g(table.unpack(T, 1, 250)) end PEAK()"),
+    ("unpack-select", "local T = {} for i = 1, 250 do T[i] = i end\nlocal function f(n) if n == 0 then PEAK() return 0 end return select('#', table.unpack(T, 1, 250)) + f(n - 1) end f(12000)"),
+    ("resume-values", "local T = {} for i = 1, 250 do T[i] = i end\nlocal K = {} for i = 1, 4000 do local co = coroutine.create(function(...) coroutine.yield(...) end) coroutine.resume(co, table.unpack(T, 1, 250)) K[i] = co end PEAK()"),
+    ("yield-values", "local T = {} for i = 1, 250 do T[i] = i end\nlocal K = {} for i = 1, 4000 do local co = coroutine.create(function() local function h(...) coroutine.yield(...) return ... end h(table.unpack(T, 1, 250)) end) coroutine.resume(co) K[i] = co end PEAK()"),
+    ("tables", "local K = {} for i = 1, 600000 do K[i] = {i} end PEAK()"),
+    ("hash-keys", "local K = {} for i = 1, 400000 do K['k' .. i] = i end PEAK()"),
+    ("strings", "local K = {} for i = 1, 60000 do K[i] = string.rep('x', 1000) .. i end PEAK()"),
+    ("string-rep-big", "local K = {} for i = 1, 30 do K[i] = string.rep('y', 2000000 + i) end PEAK()"),
+    ("closures", "local K = {} for i = 1, 500000 do K[i] = function() return i end end PEAK()"),
+    ("coroutines", "local K = {} for i = 1, 15000 do local co = coroutine.create(function() coroutine.yield() end) coroutine.resume(co) K[i] = co end PEAK()"),
+    ("loaded-functions", "local S = 'local a, b, c = 1, 2, 3 return function() return a + b + c end' local K = {} for i = 1, 40000 do K[i] = load(S) end PEAK()"),
+    ("concat-big", "local T = {} for i = 1, 20000 do T[i] = 'abcdefghij' end local K = {} for i = 1, 200 do K[i] = table.concat(T, tostring(i)) end PEAK()"),
+    ("gsub-big", "local A = string.rep('ab', 100000) local K = {} for i = 1, 100 do K[i] = string.gsub(A, 'a', tostring(i % 10)) end PEAK()"),
+    ("format-big", "local A = string.rep('q', 500000) local K = {} for i = 1, 60 do K[i] = string.format('%s%d%s', A, i, A) end PEAK()"),
+    ("deep-recursion", "local function r(n) if n == 0 then PEAK() return 0 end local a, b, c, d = n, n, n, n return 1 + r(n - 1) + a - b + c - d end r(200000)"),
+    ("sort-copy", "local K = {} for i = 1, 100 do local t = {} for j = 1, 5000 do t[j] = (j * 7919) % 5000 end table.sort(t) K[i] = t end PEAK()"),
+    ("insert-grow", "local K = {} for i = 1, 300 do local t = {} for j = 1, 5000 do table.insert(t, j) end K[i] = t end PEAK()"),
+    ("move-copy", "local T = {} for i = 1, 5000 do T[i] = i end local K = {} for i = 1, 300 do K[i] = table.move(T, 1, 5000, 1, {}) end PEAK()"),
+    ("string-pack", "local K = {} for i = 1, 40000 do K[i] = string.pack('i8i8i8i8z', i, i, i, i, 'padpadpadpadpadpadpadpad') end PEAK()"),
+    ("tostring-numbers", "local K = {} for i = 1, 400000 do K[i] = tostring(i * 1.5) end PEAK()"),
+    ("upvalue-chains", "local K = {} for i = 1, 100000 do local a, b, c = i, i, i K[i] = function() a = a + 1 return function() return a + b + c end end end PEAK()"),
+    ("error-values", "local K = {} for i = 1, 50000 do local ok, e = pcall(error, {i, 'payload'}) K[i] = e end PEAK()"),
+    ("dump-strings", "local function f() return 1, 2, 3 end local K = {} for i = 1, 40000 do K[i] = string.dump(f) .. i end PEAK()"),
+]
+HOLDER_PRE = "local function PEAK() local c, s = runtime.context(), 0 while c do s = s + c.used.memory c = c.parent end emit('peak', s) end\n"
 
 
 def base_programs(tier, rng, light=False):
@@ -256,6 +294,24 @@ def program_level(rep, prop, tier, resource, drv, light=False):
                               {"src": pcases[j]["src"], "limit": 2000000, "observed": {k: v for k, v in o.items() if k != "trace"}, "why": bad})
             if o.get("trace") is not None and not o.get("timeout"):
                 traces.append(("pump:%s" % name, [clamp_ev(e) for e in o["trace"]]))
+
+    # ---------------- holders (C06): accounted memory at the peak vs the live Go heap, decided by TLC (THeapVerdict)
+    if resource == "mem" and not light:
+        hcases = [{"id": j, "src": HOLDER_PRE + src, "cpu": 20000000000, "mem": 1500000000, "timeout": 240000, "heap": True}
+                  for j, (name, src) in enumerate(HOLDERS)]
+        houts = run_lua_cases(drv, hcases, nproc=3)      # few at a time: each holds 20-130 MB
+        cov["memory_holders"] = {}
+        for j, (name, src) in enumerate(HOLDERS):
+            o = houts[j]
+            pk = [e for e in o.get("events", []) if e and isinstance(e[0], dict) and e[0].get("s") == "peak"]
+            if o.get("timeout") or o.get("crash") or o.get("panic") or not o.get("ok") or not pk:
+                rep.violation({"kind": "holder", "holder": name, "why": "did-not-complete"},
+                              {"src": hcases[j]["src"], "observed": {k: v for k, v in o.items() if k != "trace"}})
+                continue
+            acc, heap = int(pk[0][1]["i"]), int(o.get("heap_peak", 0))
+            cov["memory_holders"][name] = {"accounted_at_peak": acc, "go_heap_peak": heap, "ratio": round(heap / max(acc, 1), 2)}
+            # one-event trace: TLC decides whether the Go heap is within the constant factor of the accounted memory (KiB)
+            traces.append(("holder:%s" % name, [{"k": "heapverdict", "acc": min(acc >> 10, CLAMP), "heap": min(heap >> 10, CLAMP)}]))
 
     # ---------------- amplification: one library call with a size parameter, small limits
     acases, ameta = [], []
